@@ -142,4 +142,27 @@ example : ∃ (p : MetaParams ℝ) (c : Clock), depositNow p c = true :=
    { it := 4, itRestart := 0, first := false, cont := false }, by
      simp [depositNow, canAccumulate, Clock.stepRelative]⟩
 
+/-! ## rebinning from kept hills -/
+
+/-- after a restart with `rebinGrids` every bin of the **new** grid holds the sum of all kept hills evaluated at that bin's centre,
+    whatever grid the state had been written with — so inside the new grid the bias is the one the property describes -/
+theorem rebin_bins (p : MetaParams ℝ) (g' : GridDef ℝ) (s : MetaState ℝ) (ix : List Int)
+    (hpos : ∀ n ∈ g'.nx, 0 < n) (hne : g'.nx ≠ []) (hok : indexOk g'.nx ix = true) :
+    (metaRebin p g' s).gridE.getD (address 1 g'.nx ix).toNat 0 = hillsEnergy p s.hills (binCenters g' ix) := by
+  have hnt := Cv.C15.ntOf_pos g'.nx hpos
+  have hlen : (((MetaState.empty g' true : MetaState ℝ).gridE.length : Nat) : Int) = ntOf 1 (MetaState.empty g' true : MetaState ℝ).g.nx := by
+    simp only [MetaState.empty, if_true, List.length_replicate]
+    exact Int.toNat_of_nonneg hnt.le
+  have h := project_adds p (MetaState.empty g' true) s.hills ix hpos hne hlen hok
+  have h0 : (MetaState.empty g' true : MetaState ℝ).gridE.getD (address 1 g'.nx ix).toNat 0 = 0 := by
+    simp only [MetaState.empty, if_true]
+    rw [List.getD_eq_getElem?_getD]
+    by_cases hlt : (address 1 g'.nx ix).toNat < (ntOf 1 g'.nx).toNat
+    · rw [List.getElem?_replicate]; simp [hlt]; norm_num
+    · rw [List.getElem?_eq_none (by simpa using Nat.le_of_not_lt hlt)]; rfl
+  show (projectHills p (MetaState.empty g' true) s.hills).gridE.getD (address 1 g'.nx ix).toNat 0 = _
+  have hg : (MetaState.empty g' true : MetaState ℝ).g = g' := rfl
+  rw [hg] at h
+  rw [h, h0, zero_add]
+
 end Cv.C05
